@@ -277,7 +277,18 @@ macro_rules! builder {
             _ => observable::defer(move || s1.clone().map(pick.clone()).$merge_all(a as usize)).box_it(),
           }
         }
-        "finalize" => src(ast.s1).$finalize(move || sh.bump(b)).box_it(),
+        "finalize" => {
+          // a > 0: the callback also sends item v into hot subject a (a teardown that feeds back into the pipeline)
+          let feed = if a > 0 { Some((env.subjects[(a - 1) as usize].clone(), ast.v.clone())) } else { None };
+          src(ast.s1)
+            .$finalize(move || {
+              sh.bump(b);
+              if let Some((s, v)) = feed.as_ref() {
+                s.clone().next(v.clone())
+              }
+            })
+            .box_it()
+        }
         "share" => src(ast.s1).$share().box_it(),
         // ------------------------------------------------ scheduler-using operators and sources
         "delay" => {
